@@ -8,7 +8,6 @@ package main
 // the texts are rendered by the check, the verdict is TLC's.
 
 import (
-	"bytes"
 	"context"
 	"encoding/json"
 	"flag"
@@ -168,8 +167,8 @@ func c18Run1(c *c18Case, root, gojqBin string, keep bool, budget time.Duration) 
 	cmd := exec.CommandContext(ctx, exe, c.Args...)
 	cmd.Dir = filepath.Join(base, c.Cwd)
 	cmd.Env = []string{"HOME=" + filepath.Join(base, c.Home), "PATH=/usr/bin:/bin", "LANG=C"}
-	var so, se bytes.Buffer
-	cmd.Stdout, cmd.Stderr = &so, &se
+	so, se := &capBuffer{max: 1 << 20}, &capBuffer{max: 1 << 20}
+	cmd.Stdout, cmd.Stderr = so, se
 	err := cmd.Run()
 	res.Out, res.Err = so.String(), se.String()
 	if len(res.Out) > 1<<16 {
